@@ -58,7 +58,7 @@ check("C16", "DESIGN.md 5/C16",
       "independent arithmetic reference on n+1 affinely independent points; exhaustive replay; trace validation (Trace_Constraints)",
       "TLC proves for every token string in the bound that the compiled rows equal the arithmetic meaning of the written expression on "
       "the points 0, e_1..e_n (which determines an affine map) and that non-linear specifications are rejected; the real "
-      "LinearConstraints.from_spec (string, list, mapping forms, and ModelSpec.get_linear_constraints) is compared exactly on every case, "
+      "LinearConstraints.from_spec (string, list, mapping forms with one and with several keys in two orders, and ModelSpec.get_linear_constraints) is compared exactly on every case, "
       "and random deep expressions recorded from the real code are validated by TLC. Runs of adjacent signs are read sign by sign by the reference; the design "
       "error 'a run is negative if it holds any minus' is refuted by TLC.",
       "Trusted: conversion of the float (A, b) to fractions with denominator <= 1e6; small literals keep Rat.tla inside 32-bit integers.")
@@ -110,7 +110,7 @@ check("C03", "DESIGN.md 5/C03",
       "enumerated sequence the real code is run on a crossed frame in general position, its observed structure is accepted by TLC iff it is "
       "such a partition (any valid assignment passes) and numpy confirms rank(X) = ncols and span equality with the unreduced matrix "
       "(a valid recorded structure whose columns fail this is reported: the columns do not realise the structure), "
-      "under 9 contrast options and varying level counts.",
+      "under 9 contrast options and varying level counts; half of the unclustered cases are built again with a literal scale on some terms (same structure, rank and span).",
       "Trusted: the linear-algebra lemma (checked numerically on every replayed case: a disagreement between lemma and numpy is a "
       "machinery error), numpy.linalg.matrix_rank on small integer matrices.")
 
